@@ -1,4 +1,6 @@
 ENGINES = [
+    {"name": "enumx", "path": "harness/c14 harness/c18 (nested generators)", "serves_properties": ["C14", "C18"],
+     "kind_free_text": "small-scope exhaustive input enumeration: nested generators over explicit hostile alphabets, every combination up to the stated size, nothing drawn at random"},
     {"name": "seqx", "path": "seqx/", "serves_properties": ["C01", "C11", "C17", "C20"],
      "kind_free_text": "explicit-state breadth-first search over operation sequences: successor = fresh real instance + replay of the shortest history + one operation; dedup on the reference model's canonical state; every operation of the alphabet applied from every reachable state and compared with the reference model"},
     {"name": "gosched", "path": "vrt/ explore/ instr/", "serves_properties": ["C01", "C02", "C03", "C04"],
@@ -8,6 +10,13 @@ NOTES = "All checks rebuild from /repo's working tree through bin/prepare (instr
 NOT_APPLICABLE = {}
 A_NOTE = "Trusted: the vrt shims model Go's mutex/cond/channel/select/timer semantics faithfully (self-tests + repository tests pass on the instrumented build in passthrough mode); sequential consistency; scheduling points before acquire-type operations only; data races are left to a separate -race pass."
 CHECKS = {
+    "C14": {
+        "engine": "enumx + gosched (deterministic schedule)",
+        "technique": "small-scope exhaustive enumeration of selector terms/queries x label maps at four evaluation sites vs an independent evaluator and algebraic laws; exhaustive histories of label changes with filtered lists and watches replayed at exact quiescence",
+        "text": "Algebra: all 2548 label terms (2 keys x 7 operators x invert x value lists of length 0/1/2 over 9 hostile values incl. unit suffixes, blanks, negatives, non-numerics) and a covering set of term pairs (AND within a query, OR across queries) and ID regexps are evaluated on all 100 label maps at four sites - LabelQueries.Matches, direct inmem List, the runtime cache List (facade), and a remote List through transformLabelQuery -> wire -> ConvertLabelQuery - and must agree with an independent evaluator written from the documented semantics; laws: invert negates exactly the defined results, undefined comparisons never match, In = OR of Equal. Views: every history of <= 3 (thorough 4) label/existence changes on two resources x 9 selectors: filtered List == brute-force filter of the full List; a selector-filtered kind watch (started before and after the first step, inmem and remote) replayed over its bootstrap == filtered List, with only legal Created/Updated/Destroyed transitions.",
+        "design_ref": "DESIGN.md 3/C14",
+        "note": "Trusted: the independent evaluator (40 lines) as the reading of the documented semantics; alphabet bounds. Views use the deterministic default schedule.",
+    },
     "C11": {
         "engine": "seqx-style BFS on gosched (deterministic schedule) + enumeration",
         "technique": "explicit-state BFS over operation sequences on a differential twin (direct state vs client adapter -> real vtproto marshalling -> server), every history run to exact quiescence on the controlled scheduler; exhaustive enumeration of malformed wire requests against the real server",
